@@ -1,6 +1,7 @@
 package chk
 
 import (
+	"go/constant"
 	"fmt"
 	"go/token"
 	"go/types"
@@ -45,8 +46,48 @@ func dominatingConds(b *ssa.BasicBlock) []domCond {
 			out = append(out, domCond{iff.Cond, d.Succs[0] == x})
 		}
 	}
+	// a && b / a || b in value position are compiled to a phi of a constant and the right operand:
+	// the phi being true (false) implies the right operand is, and everything that dominates the
+	// block the right operand comes from
+	for i := 0; i < len(out); i++ {
+		ph, ok := out[i].cond.(*ssa.Phi)
+		if !ok {
+			continue
+		}
+		var rhs ssa.Value
+		var from *ssa.BasicBlock
+		simple := true
+		for k, e := range ph.Edges {
+			if c, isC := e.(*ssa.Const); isC && c.Value != nil && c.Value.Kind() == constant.Bool {
+				if constant.BoolVal(c.Value) == out[i].taken {
+					simple = false // the constant itself yields the observed value: nothing is implied
+				}
+				continue
+			}
+			if rhs != nil {
+				simple = false
+			}
+			rhs, from = e, ph.Block().Preds[k]
+		}
+		if !simple || rhs == nil {
+			continue
+		}
+		out = append(out, domCond{rhs, out[i].taken})
+		seen := map[ssa.Value]bool{}
+		for _, dc := range out {
+			seen[dc.cond] = true
+		}
+		for _, dc := range dominatingCondsIncl(from) {
+			if !seen[dc.cond] {
+				out = append(out, dc)
+			}
+		}
+	}
 	return out
 }
+
+// dominatingCondsIncl: conditions that hold on entry of b (those of dominatingConds(b)).
+func dominatingCondsIncl(b *ssa.BasicBlock) []domCond { return dominatingConds(b) }
 
 type valPred func(v ssa.Value) bool
 
